@@ -16,7 +16,7 @@ from ..values import (Const, Sym, CRef, FRef, ERef, Bound, Obj, Tup, App,
                       New, Raise, walk)
 from ..interp import Interp, Hooks
 from ..effects import Effects
-from ..report import Finding, RuleResult, floor, Attempts
+from ..report import Finding, RuleResult, floor, Attempts, adopt
 
 PROP = 'C16'
 
@@ -553,4 +553,9 @@ def run(prog, tier, seed):
             'creation (WeakSet run-time semantics).')
     assumptions = ['WeakSet iteration yields exactly the live parents',
                    'single-threaded use', 'no reflection']
-    return T.results(r1, r2, r3, r4, r5), expl, assumptions, T.extra()
+    from . import c17
+    dep = adopt(T.results(T(c17.rule_bdd6, prog),
+                          T(lambda pr: c17.rule_bdd1(pr, tier)[0], prog)),
+                PROP, 'operations must return the canonical node')
+    return T.results(r1, r2, r3, r4, r5) + dep, expl, assumptions, \
+        T.extra()
